@@ -1,6 +1,22 @@
 """Per-property configuration of the check driver (streams, sizes, notes)."""
 
 CHECKS = {
+    "C03": {
+        "streams": [{"name": "parse.expr", "quick": 15000, "thorough": 400000}],
+        "rule": "parse.expr: corner-case corpus; every chain a op b and a op b op c over all 19 operator spellings (incl. <> and "
+                "regex operators with regex operands) exhaustively; thorough tier additionally k=3 exhaustively and every "
+                "parenthesisation of 5-atom chains over one operator per level; random expressions of 0-40 operators with "
+                "random-case keywords, parenthesised sub-chains, negated/signed operands, calls (also regex/wildcard arguments), "
+                "typed and segmented references, literals of every kind, bound parameters of every bindable and unbindable kind; "
+                "10% lexical soup. Compared with the model: the whole AST or the exact error text. Property oracle on the "
+                "implementation: simple chains group as an independent precedence-climbing reference says; print -> parse gives the "
+                "same tree. non-trivial = text longer than three runes",
+        "trusted_base": [
+            "modelled, not verified: regexp.Compile (assumed to accept; cases where the implementation reports a regexp syntax error are "
+            "not compared), strconv.ParseFloat/FormatFloat (number literals are exact decimals in the model; literals with more "
+            "than 15 significant digits are not compared), unicode.ToLower on non-ASCII runes (table shipped by the harness)"],
+        "assumptions": ["printing of unparenthesised `±1 * x` operands and of quoted call names are recorded known findings"],
+    },
     "C06": {
         "streams": [{"name": "quote.str", "quick": 8000, "thorough": 200000},
                     {"name": "quote.needs", "quick": 8000, "thorough": 200000},
